@@ -126,8 +126,8 @@ def programs(ctx):
                     ("go-spread", "func tg(a, b) {\n}\nfor {\n go tg([1, 2]...)\n p(1)\n}"), ("chan-make-loop", "for {\n cq = make(chan int64, 1)\n cq <- 1\n p(<-cq)\n}")):
         out.append({"id": "crowded-%s|bare" % nm, "src": src, "pre": "", "threads": 1, "crowd": 6000 if ctx.quick() else 20000})
     # the cancellation arrives when the recursion is very deep: unwinding is part of the bounded time
-    for nm, src, ms in (("deep-recursion", "func dr(n) {\n return dr(n + 1) + 1\n}\ndr(0)", 300), ("deep-recursion-try", "func dt(n) {\n try {\n  return dt(n + 1) + 1\n } catch e {\n  throw e\n }\n}\ndt(0)", 200),
-                        ("deep-mutual", "func da(n) {\n return db(n + 1)\n}\nfunc db(n) {\n return da(n + 1)\n}\nda(0)", 300)):
+    for nm, src, ms in (("deep-recursion", "func dr(n) {\n return dr(n + 1) + 1\n}\ndr(0)", 550), ("deep-recursion-try", "func dt(n) {\n try {\n  return dt(n + 1) + 1\n } catch e {\n  throw e\n }\n}\ndt(0)", 200),
+                        ("deep-mutual", "func da(n) {\n return db(n + 1)\n}\nfunc db(n) {\n return da(n + 1)\n}\nda(0)", 550)):
         out.append({"id": "%s|late" % nm, "src": src, "pre": "", "threads": 0, "delay_ms": ms})
     pairs = [(a, b) for a in WRAPS for b in WRAPS if not b.startswith("xfn")]
     rng.shuffle(pairs)
